@@ -928,7 +928,7 @@ func (e *engine) Gen(r *rand.Rand, n int, tier string, w *bufio.Writer) {
 			case x < 32:
 				emit("delete %s %s", Hx(id), Hx(Pick(r, keys)))
 			case x < 38:
-				emit("compact %s %d", Hx(id), 1+r.Intn(3))
+				emit("compact %s %d", Hx(id), 1+r.Intn(3)*r.Intn(2))
 			case x < 58:
 				dst := Pick(r, ids)
 				if dst == id {
@@ -988,6 +988,9 @@ func (e *engine) Gen(r *rand.Rand, n int, tier string, w *bufio.Writer) {
 						if m.ID != id && (sim.nodes[m.ID] == nil || sim.nodes[m.ID].dead || r.Intn(5) == 0) && r.Intn(4) > 0 {
 							sus = append(sus, Hx(m.ID))
 						}
+					}
+					if r.Intn(3) == 0 { // the acting node's own id in the suspected set (must be ignored)
+						sus = append(sus, Hx(id))
 					}
 					s := "-"
 					if len(sus) > 0 {
